@@ -2,27 +2,39 @@
 
 package sqlx
 
-// C01 call-site harness: every `site sqlexec|sqlprep|sqltx|sqlquery <class>` op is one call of the real
-// commonSqlConn.ExecCtx / PrepareCtx / TransactCtx / QueryRowCtx (queryRows). The error of the named class
-// is injected through the connection provider (the first thing every wrapped request calls); class nil runs
-// against a go-sqlmock database; sf=1 (sqlquery only) makes the row scanner fail on a good connection.
-// ua=1 uses a connection with a WithAcceptable option that accepts exactly the `custom` error; both
-// connections share one breaker.
+// C01 call-site harness for core/stores/sqlx. Every `site <site> <class> … name=<p|u|v>` op is one call of the real
+//   sqlexec       commonSqlConn.ExecCtx            sqlprep     commonSqlConn.PrepareCtx (a successful one is kept)
+//   sqltx         commonSqlConn.TransactCtx        sqlquery    commonSqlConn.QueryRowCtx   (queryRows)
+//   sqlqueryrows  commonSqlConn.QueryRowsCtx       sqlstexec   statement.ExecCtx           (of the kept statement)
+//   sqlstquery    statement.QueryRowCtx (statement.queryRows)
+// on one of three connections built by the REAL constructor NewSqlConnFromDB(db, opts...) over a scripted
+// database/sql driver: p = no option, u = WithAcceptable(custom), v = WithAcceptable(custom), WithAcceptable(custom2)
+// (the chained closure). Each connection has its own breaker (created by the constructor), so the sections are
+// `kind=named` and also show that instances do not leak into each other.
+// Where the error of the named class is injected:  sf=0 ig=0  connection provider (connection-level sites only),
+// sf=0 ig=1  the driver's Exec / Query / Prepare / Begin,  sf=1  the row scanner (rows.Err() after the first Next;
+// class norows: an empty result; class conv: a value that does not convert) resp. the transaction function (sqltx).
+// `req=` counts how often the wrapped request ran (connection provider resp. the driver call of a statement).
 
 import (
 	"context"
 	"database/sql"
+	"database/sql/driver"
 	"errors"
 	"fmt"
+	"io"
+	"strings"
 	"testing"
 
-	"github.com/DATA-DOG/go-sqlmock"
 	"github.com/zeromicro/go-zero/core/breaker"
 	"github.com/zeromicro/go-zero/internal/verifc01"
 	"github.com/zeromicro/go-zero/internal/verifh"
 )
 
-var c01SqlCustom = errors.New("c01 custom")
+var (
+	c01SqlCustom  = errors.New("c01 custom")
+	c01SqlCustom2 = errors.New("c01 custom2")
+)
 
 func c01SqlErr(class string) error {
 	switch class {
@@ -34,6 +46,8 @@ func c01SqlErr(class string) error {
 		return fmt.Errorf("wrapped: %w", sql.ErrNoRows)
 	case "txdone":
 		return sql.ErrTxDone
+	case "wtxdone":
+		return fmt.Errorf("wrapped: %w", sql.ErrTxDone)
 	case "canceled":
 		return context.Canceled
 	case "wcanceled":
@@ -44,111 +58,321 @@ func c01SqlErr(class string) error {
 		return fmt.Errorf("wrapped: %w", newAcceptableError(errors.New("c01 scan")))
 	case "custom":
 		return c01SqlCustom
+	case "custom2":
+		return c01SqlCustom2
 	case "deadline":
 		return context.DeadlineExceeded
+	case "wdeadline":
+		return fmt.Errorf("wrapped: %w", context.DeadlineExceeded)
 	case "brkopen":
 		return breaker.ErrServiceUnavailable
 	case "wbrkopen":
 		return fmt.Errorf("wrapped: %w", breaker.ErrServiceUnavailable)
 	case "other":
 		return errors.New("c01 other")
+	case "wother":
+		return fmt.Errorf("wrapped: %w", errors.New("c01 other"))
 	}
 	panic("verif c01: bad class " + class)
 }
 
-func TestVerifC01Sqlx(t *testing.T) {
-	good := []string{"nil", "norows", "wnorows", "txdone", "canceled", "wcanceled", "accerr", "waccerr"}
-	bad := []string{"other", "deadline", "brkopen", "wbrkopen", "custom"}
-	ua := func(r *verifh.Rng, c *verifc01.Call) { c.UserAcc = r.Chance(1, 3) }
-	specs := []verifc01.SiteSpec{
-		{Site: "sqlexec", Good: good, Bad: bad, Flags: ua},
-		{Site: "sqlquery", Good: good, Bad: bad, Flags: func(r *verifh.Rng, c *verifc01.Call) {
-			ua(r, c)
-			if c.Class == "nil" && !c.Panics {
-				c.ScanFail = r.Chance(1, 2)
-			}
-		}},
-		{Site: "sqltx", Good: good, Bad: bad, Flags: ua},
-		{Site: "sqlprep", Good: good, Bad: bad, Flags: ua},
+// ---- scripted database/sql driver ---------------------------------------------------------------------------
+
+// c01Script is what the driver does during the current op.
+type c01Script struct {
+	drvErr  error            // error of the terminal driver call (Exec / Query / Prepare / Begin), nil = succeed
+	rows    [][]driver.Value // result of a query
+	rowsErr error            // error reported by Rows.Next after `rows`
+	onStmt  func()           // called by Stmt.Exec / Stmt.Query (statement-level sites count and panic here)
+	term    string           // which driver call is the terminal one of this op: exec | query | prepare | begin
+}
+
+var c01Cur = &c01Script{}
+
+type c01Connector struct{}
+
+func (c01Connector) Connect(context.Context) (driver.Conn, error) { return c01Conn{}, nil }
+func (c01Connector) Driver() driver.Driver                        { return c01Driver{} }
+
+type c01Driver struct{}
+
+func (c01Driver) Open(string) (driver.Conn, error) { return c01Conn{}, nil }
+
+type c01Conn struct{}
+
+func (c01Conn) Prepare(string) (driver.Stmt, error) {
+	if c01Cur.term == "prepare" && c01Cur.drvErr != nil {
+		return nil, c01Cur.drvErr
 	}
-	verifc01.Run(t, verifc01.Gen(specs, false), func(named bool) verifc01.Env {
-		brk := breaker.NewBreaker()
-		var prov func() (*sql.DB, error)
-		mk := func(acc breaker.Acceptable) *commonSqlConn {
-			return &commonSqlConn{
-				connProv: func() (*sql.DB, error) { return prov() },
-				onError:  func(context.Context, error) {},
-				beginTx:  begin,
-				brk:      brk,
-				accept:   acc,
-			}
+	return c01Stmt{}, nil
+}
+func (c01Conn) Close() error { return nil }
+func (c01Conn) Begin() (driver.Tx, error) {
+	if c01Cur.term == "begin" && c01Cur.drvErr != nil {
+		return nil, c01Cur.drvErr
+	}
+	return c01Tx{}, nil
+}
+
+type c01Tx struct{}
+
+func (c01Tx) Commit() error   { return nil }
+func (c01Tx) Rollback() error { return nil }
+
+type c01Stmt struct{}
+
+func (c01Stmt) Close() error  { return nil }
+func (c01Stmt) NumInput() int { return -1 }
+func (c01Stmt) Exec([]driver.Value) (driver.Result, error) {
+	if c01Cur.onStmt != nil {
+		c01Cur.onStmt()
+	}
+	if c01Cur.term == "exec" && c01Cur.drvErr != nil {
+		return nil, c01Cur.drvErr
+	}
+	return driver.RowsAffected(1), nil
+}
+func (c01Stmt) Query([]driver.Value) (driver.Rows, error) {
+	if c01Cur.onStmt != nil {
+		c01Cur.onStmt()
+	}
+	if c01Cur.term == "query" && c01Cur.drvErr != nil {
+		return nil, c01Cur.drvErr
+	}
+	return &c01Rows{rows: c01Cur.rows, err: c01Cur.rowsErr}, nil
+}
+
+type c01Rows struct {
+	rows [][]driver.Value
+	err  error
+	i    int
+}
+
+func (*c01Rows) Columns() []string { return []string{"n"} }
+func (*c01Rows) Close() error      { return nil }
+func (r *c01Rows) Next(dest []driver.Value) error {
+	if r.i < len(r.rows) {
+		copy(dest, r.rows[r.i])
+		r.i++
+		return nil
+	}
+	if r.err != nil {
+		return r.err
+	}
+	return io.EOF
+}
+
+// ---- the harness ---------------------------------------------------------------------------------------------
+
+type c01SqlInst struct {
+	conn *commonSqlConn
+	ua   int
+	stmt StmtSession
+	// per op, consulted by the wrapped connection provider
+	provErr    error
+	provPanics bool
+	onProv     func()
+}
+
+func c01UA(name string) int {
+	switch name {
+	case "p":
+		return 0
+	case "u":
+		return 1
+	case "v":
+		return 2
+	}
+	panic("verif c01: bad sqlx instance " + name)
+}
+
+func TestVerifC01Sqlx(t *testing.T) {
+	good := []string{"nil", "norows", "wnorows", "txdone", "wtxdone", "canceled", "wcanceled", "accerr", "waccerr"}
+	bad := []string{"other", "wother", "deadline", "wdeadline", "brkopen", "wbrkopen", "custom", "custom2"}
+	// out of the scanner: everything but the deadline is the caller's problem
+	scanGood := []string{"norows", "wnorows", "canceled", "wcanceled", "other", "wother", "conv", "accerr", "brkopen", "custom", "txdone"}
+	scanBad := []string{"deadline", "wdeadline"}
+	names := []string{"p", "u", "v"}
+	fix := func(r *verifh.Rng, c *verifc01.Call) {
+		c.UserAcc = c01UA(c.Name)
+		stmtSite := c.Site == "sqlstexec" || c.Site == "sqlstquery"
+		if !c.ScanFail {
+			c.Ignored = stmtSite || r.Chance(1, 2) // driver stage vs connection provider
 		}
-		plain := mk(nil)
-		withUA := mk(nil)
-		WithAcceptable(func(err error) bool { return err == c01SqlCustom })(withUA)
+		if c.Site == "sqltx" && c.Class != "nil" && !c.ScanFail && r.Chance(1, 3) {
+			c.ScanFail = true // the transaction function fails
+			c.Ignored = false
+		}
+	}
+	setup := func(names []string) []string {
+		var ops []string
+		for _, n := range names {
+			ops = append(ops, fmt.Sprintf("site sqlprep nil p=0 sf=0 ua=%d ig=1 ctx=live u=0 name=%s", c01UA(n), n))
+		}
+		return ops
+	}
+	rowsGood := []string{"canceled", "wcanceled", "other", "wother", "conv", "accerr", "brkopen", "custom2"}
+	specs := []verifc01.SiteSpec{
+		{Site: "sqlquery", Good: good, Bad: bad, ScanGood: scanGood, ScanBad: scanBad, Names: names, Fix: fix},
+		{Site: "sqlexec", Good: good, Bad: bad, Names: names, Fix: fix},
+		{Site: "sqlstquery", Good: good, Bad: bad, ScanGood: scanGood, ScanBad: scanBad, Names: names, Fix: fix, Setup: setup},
+		{Site: "sqltx", Good: good, Bad: bad, Names: names, Fix: fix},
+		{Site: "sqlstexec", Good: good, Bad: bad, Names: names, Fix: fix, Setup: setup},
+		{Site: "sqlprep", Good: good, Bad: bad, Names: names, Fix: fix},
+		{Site: "sqlqueryrows", Good: good, Bad: bad, ScanGood: rowsGood, ScanBad: scanBad, Names: names, Fix: fix},
+	}
+	verifc01.Run(t, verifc01.Gen(specs, true), func(named bool) verifc01.Env {
+		if !named {
+			panic("verif c01: sqlx sections are named")
+		}
+		insts := map[string]*c01SqlInst{}
+		get := func(name string) *c01SqlInst {
+			if in, ok := insts[name]; ok {
+				return in
+			}
+			db := sql.OpenDB(c01Connector{})
+			var opts []SqlOption
+			ua := c01UA(name)
+			if ua >= 1 {
+				opts = append(opts, WithAcceptable(func(err error) bool { return err == c01SqlCustom }))
+			}
+			if ua >= 2 {
+				opts = append(opts, WithAcceptable(func(err error) bool { return err == c01SqlCustom2 }))
+			}
+			conn, ok := NewSqlConnFromDB(db, opts...).(*commonSqlConn)
+			if !ok {
+				panic("verif c01: NewSqlConnFromDB did not return a *commonSqlConn")
+			}
+			in := &c01SqlInst{conn: conn, ua: ua}
+			orig := conn.connProv
+			conn.connProv = func() (*sql.DB, error) {
+				if in.onProv != nil {
+					in.onProv()
+				}
+				if in.provPanics {
+					panic(verifc01.PanicValue)
+				}
+				if in.provErr != nil {
+					return nil, in.provErr
+				}
+				return orig()
+			}
+			insts[name] = in
+			return in
+		}
 		return verifc01.Env{
-			Breaker: func(string) breaker.Breaker { return brk },
+			Breaker: func(name string) breaker.Breaker { return get(name).conn.brk },
 			Invoke: func(c verifc01.Call, ctx context.Context, onReq func()) string {
-				want := c01SqlErr(c.Class)
-				if c.ScanFail && (c.Site != "sqlquery" || want != nil) {
-					panic("verif c01: sf=1 needs sqlquery nil")
+				in := get(c.Name)
+				if c.UserAcc != in.ua {
+					panic("verif c01: ua= does not match the instance")
+				}
+				stmtSite := c.Site == "sqlstexec" || c.Site == "sqlstquery"
+				querySite := c.Site == "sqlquery" || c.Site == "sqlstquery" || c.Site == "sqlqueryrows"
+				var want error
+				if c.Class != "conv" {
+					want = c01SqlErr(c.Class)
+				}
+				if c.ScanFail && !querySite && c.Site != "sqltx" {
+					panic("verif c01: sf=1 needs a query site or sqltx")
+				}
+				if c.Class == "conv" && !(c.ScanFail && querySite) {
+					panic("verif c01: class conv needs sf=1 at a query site")
+				}
+				if stmtSite && !c.ScanFail && !c.Ignored {
+					panic("verif c01: a statement has no connection provider (ig=1 expected)")
 				}
 				ran := false
-				var mock sqlmock.Sqlmock
-				prov = func() (*sql.DB, error) {
-					onReq()
-					ran = true
-					if c.Panics {
-						panic(verifc01.PanicValue)
-					}
-					if want != nil {
-						return nil, want
-					}
-					db, m, err := sqlmock.New()
-					if err != nil {
-						panic(err)
-					}
-					mock = m
-					switch c.Site {
-					case "sqlexec":
-						m.ExpectExec("c01").WillReturnResult(sqlmock.NewResult(1, 1))
-					case "sqlprep":
-						m.ExpectPrepare("c01")
-					case "sqltx":
-						m.ExpectBegin()
-						m.ExpectCommit()
-					case "sqlquery":
-						v := "7"
-						if c.ScanFail {
-							v = "not-a-number"
-						}
-						m.ExpectQuery("c01").WillReturnRows(sqlmock.NewRows([]string{"n"}).AddRow(v))
-					}
-					return db, nil
+				count := func() { onReq(); ran = true }
+				sc := &c01Script{}
+				c01Cur = sc
+				defer func() { c01Cur = &c01Script{} }()
+				in.provErr, in.provPanics, in.onProv = nil, false, nil
+				defer func() { in.provErr, in.provPanics, in.onProv = nil, false, nil }()
+				switch c.Site {
+				case "sqlexec", "sqlstexec":
+					sc.term = "exec"
+				case "sqlquery", "sqlstquery", "sqlqueryrows":
+					sc.term = "query"
+				case "sqlprep":
+					sc.term = "prepare"
+				case "sqltx":
+					sc.term = "begin"
+				default:
+					panic("verif c01: bad site " + c.Site)
 				}
-				conn := plain
-				if c.UserAcc {
-					conn = withUA
+				if stmtSite {
+					sc.onStmt = func() {
+						count()
+						if c.Panics {
+							panic(verifc01.PanicValue)
+						}
+					}
+				} else {
+					in.onProv = count
+					in.provPanics = c.Panics
+				}
+				sc.rows = [][]driver.Value{{int64(7)}}
+				var fnErr error
+				switch {
+				case c.ScanFail && c.Site == "sqltx":
+					fnErr = want
+				case c.ScanFail && c.Class == "norows" && c.Site != "sqlqueryrows":
+					sc.rows = nil // unmarshalRow turns the empty result into ErrNotFound (= sql.ErrNoRows)
+				case c.ScanFail && c.Class == "conv":
+					sc.rows = [][]driver.Value{{"not-a-number"}}
+				case c.ScanFail && c.Class == "nil":
+				case c.ScanFail:
+					if c.Site == "sqlqueryrows" {
+						sc.rows = [][]driver.Value{{int64(7)}} // the error comes after a good first row
+					} else {
+						sc.rows = nil
+					}
+					sc.rowsErr = want
+				case c.Ignored:
+					sc.drvErr = want
+				default:
+					in.provErr = want
 				}
 				var err error
 				switch c.Site {
 				case "sqlexec":
-					_, err = conn.ExecCtx(ctx, "c01")
+					_, err = in.conn.ExecCtx(ctx, "c01")
 				case "sqlprep":
-					_, err = conn.PrepareCtx(ctx, "c01")
+					var st StmtSession
+					st, err = in.conn.PrepareCtx(ctx, "c01")
+					if err == nil {
+						if st == nil {
+							return "other"
+						}
+						in.stmt = st
+					}
 				case "sqltx":
-					err = conn.TransactCtx(ctx, func(context.Context, Session) error { return nil })
+					err = in.conn.TransactCtx(ctx, func(context.Context, Session) error { return fnErr })
 				case "sqlquery":
 					var n int
-					err = conn.QueryRowCtx(ctx, &n, "c01")
+					err = in.conn.QueryRowCtx(ctx, &n, "c01")
 					if err == nil && n != 7 {
 						return "other"
 					}
-				default:
-					panic("verif c01: bad site " + c.Site)
-				}
-				if mock != nil {
-					if e := mock.ExpectationsWereMet(); e != nil {
+				case "sqlqueryrows":
+					var ns []int
+					err = in.conn.QueryRowsCtx(ctx, &ns, "c01")
+					if err == nil && (len(ns) != 1 || ns[0] != 7) {
+						return "other"
+					}
+				case "sqlstexec":
+					if in.stmt == nil {
+						panic(verifc01.SkipPrefix + " no statement prepared on this connection yet")
+					}
+					_, err = in.stmt.ExecCtx(ctx)
+				case "sqlstquery":
+					if in.stmt == nil {
+						panic(verifc01.SkipPrefix + " no statement prepared on this connection yet")
+					}
+					var n int
+					err = in.stmt.QueryRowCtx(ctx, &n)
+					if err == nil && n != 7 {
 						return "other"
 					}
 				}
@@ -157,9 +381,15 @@ func TestVerifC01Sqlx(t *testing.T) {
 					return "ctx"
 				case !ran && err == breaker.ErrServiceUnavailable:
 					return "unavail"
-				case ran && c.ScanFail && err != nil:
-					return "same" // the scanner's own error (identity not comparable from here)
-				case ran && !c.ScanFail && err == want:
+				case ran && c.Class == "conv":
+					if err != nil && strings.Contains(err.Error(), "converting") {
+						return "same"
+					}
+				case ran && c.ScanFail && c.Class == "norows" && c.Site != "sqltx":
+					if err == ErrNotFound {
+						return "same"
+					}
+				case ran && err == want:
 					return "same"
 				}
 				return "other"
